@@ -98,6 +98,15 @@ pub fn run(ctx: &Ctx, model: &mut Model, rep: &mut Report) {
 
     if let Some(path) = &ctx.replay {
         let v: serde_json::Value = serde_json::from_str(&std::fs::read_to_string(path).unwrap()).unwrap();
+        if let Some(r) = crate::cli::replay(&v) {
+            rep.evaluations += 1;
+            if let Some(w) = r {
+                let mut f = v.clone();
+                f["what"] = json!(w);
+                rep.fail(f);
+            }
+            return;
+        }
         let g = |f: &str| v[f].as_str().unwrap_or("").to_string();
         let single = match v["kind"].as_str() {
             Some("round_trip") => Some(round_trip(&g("key"), &g("dir"))),
@@ -247,6 +256,25 @@ pub fn run(ctx: &Ctx, model: &mut Model, rep: &mut Report) {
                         Err(p) => rep.fail(json!({"kind": "export_reference", "key": k, "dir": d, "ext": ext, "form": form, "what": format!("panic: {}", p)})),
                     }
                 }
+            }
+        }
+    }
+    // the command-line binary: `iwe squash` of a note in a sub-directory with depth 0-1 keeps references as links; they
+    // are written relative to that note's directory, exactly as the library API writes them
+    for (n, (key, depth)) in [("d/a", 0u8), ("d/a", 1), ("a", 0), ("d/e/deep", 0), ("d/e/deep", 1)].iter().enumerate() {
+        let lib: Vec<(String, String)> = vec![
+            ("a".to_string(), "# A\n\n[c](d/c)\n\n[top](top)\n".to_string()),
+            ("top".to_string(), "# Top\n\n[c](d/c)\n".to_string()),
+            ("d/a".to_string(), "# D A\n\n[c](c)\n\n[top](../top)\n\n[deep](e/deep)\n".to_string()),
+            ("d/c".to_string(), "# C\n\n[up](../top)\n\n[gone](missing)\n".to_string()),
+            ("d/e/deep".to_string(), "# Deep\n\n[c](../c)\n\n[top](../../top)\n\n[[../a]]\n".to_string()),
+        ];
+        for ext in ["", ".md"] {
+            oracle_cases += 1;
+            rep.count("oracle_cli_squash");
+            let cli = crate::cli::CliCase { lib: &lib, ext, sub: if n % 2 == 0 { "" } else { "notes" }, squash: Some((key, *depth)), paths_depth: 3, tag: &format!("c15-{}-{}", n, ext.len()) };
+            if let Some(w) = crate::cli::check(&cli) {
+                rep.fail(cli.failure(w));
             }
         }
     }
